@@ -45,6 +45,10 @@ def ensure_modules():
     sys.modules["vgen.sub"].deep = sys.modules["vgen.sub.deep"]
 
 
+def class_name(classes, idx):
+    return classes[idx].get("name") or "C%d" % idx
+
+
 def real_field_names(classes, idx):
     """Attribute names as they appear on instances (name mangling applied),
     own first then inherited"""
@@ -54,7 +58,7 @@ def real_field_names(classes, idx):
         spec = classes[i]
         for f in spec["fields"]:
             if f.startswith("__") and not f.endswith("__"):
-                real = "_C%d%s" % (i, f)
+                real = "_%s%s" % (class_name(classes, i).lstrip("_"), f)
             else:
                 real = f
             if real not in out:
@@ -95,6 +99,17 @@ def class_tables(draw, max_classes=4, kinds=("dict", "dict", "slots", "slots", "
                 nme = pool.pop(draw(st.integers(0, len(pool) - 1)))
                 vis = draw(st.sampled_from(vis_pool))
                 spec["fields"].append({"pub": nme, "prot": "_" + nme, "priv": "__" + nme}[vis])
+        # homonyms: the same simple name may be defined in another module (or in the
+        # local table), never twice in one module nor along one inheritance chain
+        cand = draw(st.sampled_from(["", "", "Twin", "Point"]))
+        if cand:
+            taken = set(class_name(classes, j) for j in range(i) if classes[j]["module"] == spec["module"])
+            j = spec["parent"]
+            while j is not None:
+                taken.add(class_name(classes, j))
+                j = classes[j].get("parent")
+            if cand not in taken:
+                spec["name"] = cand
         classes.append(spec)
     return classes
 
@@ -204,7 +219,7 @@ class Builder(object):
             setattr(sys.modules[module], cls.__name__, cls)
 
     def _make_class(self, i, spec, register_local):
-        name = "C%d" % i
+        name = spec.get("name") or "C%d" % i
         bases = (self.classes[spec["parent"]],) if spec.get("parent") is not None else (object,)
         kind = spec["kind"]
         modname = "__main__" if spec["module"] == "LOCAL" else spec["module"]
@@ -330,7 +345,8 @@ def same(a, b, path="$"):
         ok = type(a) is type(b) and a == b and (not isinstance(a, float) or repr(a) == repr(b))
         return None if ok else "%s: primitive %r vs %r" % (path, a, b)
     if type(a) is not type(b):
-        return "%s: class %s vs %s" % (path, type(a).__name__, type(b).__name__ if not isinstance(b, dict) else "dict %r" % (b,))
+        return "%s: class %s.%s vs %s" % (path, type(a).__module__, type(a).__name__,
+                                          "%s.%s" % (type(b).__module__, type(b).__name__) if not isinstance(b, dict) else "dict %r" % (b,))
     fa, fb = fields_of(a), fields_of(b)
     if fa.keys() != fb.keys():
         return "%s: fields %r vs %r" % (path, sorted(fa), sorted(fb))
@@ -343,7 +359,8 @@ def same(a, b, path="$"):
 
 def spec_stats(case):
     """depth, whether local / inherited / serial classes are used by the value"""
-    st_ = {"depth": 0, "local": False, "inherit": False, "serial": False, "enum": False, "decimal": False, "bean_in_field": False, "beans": 0}
+    st_ = {"depth": 0, "local": False, "inherit": False, "serial": False, "enum": False, "decimal": False, "bean_in_field": False, "beans": 0, "homonyms": False}
+    used = set()
 
     def walk(vs, d, in_field):
         st_["depth"] = max(st_["depth"], d)
@@ -356,6 +373,7 @@ def spec_stats(case):
                 walk(x, d + 1, in_field)
         elif k == "bean":
             st_["beans"] += 1
+            used.add(vs[1])
             spec = case["classes"][vs[1]]
             st_["local"] = st_["local"] or spec["module"] == "LOCAL"
             st_["inherit"] = st_["inherit"] or spec.get("parent") is not None
@@ -365,6 +383,7 @@ def spec_stats(case):
                 walk(x, d + 1, True)
         elif k == "serial":
             st_["beans"] += 1
+            used.add(vs[1])
             st_["serial"] = True
             st_["local"] = st_["local"] or case["classes"][vs[1]]["module"] == "LOCAL"
             if in_field:
@@ -375,4 +394,6 @@ def spec_stats(case):
         elif k == "decimal":
             st_["decimal"] = True
     walk(case["value"], 0, False)
+    names = [class_name(case["classes"], i) for i in used]
+    st_["homonyms"] = len(set(names)) < len(names)
     return st_
